@@ -64,5 +64,25 @@ def scrub(s: str) -> str:
     return _ADDR.sub("0x?", s)
 
 
+def safe_repr(o, depth: int = 0) -> str:
+    """Description of a native render result that never calls into data objects (their __str__ / __repr__ may be
+    fault points or contain addresses)."""
+    if isinstance(o, (str, bytes, int, float, bool, type(None), complex)):
+        return repr(o)
+    if depth > 4:
+        return "..."
+    if isinstance(o, (list, tuple)):
+        return type(o).__name__ + "(" + ", ".join(safe_repr(x, depth + 1) for x in o) + ")"
+    if isinstance(o, dict):
+        return "dict(" + ", ".join(sorted(safe_repr(k, depth + 1) + ": " + safe_repr(v, depth + 1) for k, v in o.items())) + ")"
+    if isinstance(o, (set, frozenset)):
+        return "set(" + ", ".join(sorted(safe_repr(x, depth + 1) for x in o)) + ")"
+    return "<" + type(o).__name__ + ">"
+
+
+def native_text(r) -> str:
+    return r if isinstance(r, str) else "native:" + safe_repr(r)
+
+
 def exc_key(e: BaseException) -> tuple:
     return (type(e).__name__, scrub(str(e)))
